@@ -78,10 +78,13 @@ func (r *Eval) run(ctx context.Context) (ret Object, err error) {
 		r.VM.Abort()
 		err = ctx.Err()
 	default:
+		// read the abort counter before starting the goroutine, otherwise an
+		// Abort call below is lost if it is called before Run is entered.
+		seq := r.VM.abort.Load()
 		go func() {
 			defer close(doneCh)
 			verifPoint("eval.goroutine_start", r.VM)
-			ret, err = r.VM.Run(r.Globals, r.Locals...)
+			ret, err = r.VM.runSeq(seq, r.Globals, r.Locals...)
 		}()
 
 		verifPoint("eval.started", r.VM)
